@@ -284,3 +284,35 @@ def spec_violations(cfg, vals, growth, X, tol_rel=1e-6):
         elif not z3.is_true(g):
             bad.append("UNDECIDED " + name)
     return bad
+
+
+def hard_check(solver, goal, timeout_s):
+    """decides solver /\\ goal with the z3 command-line binary under a HARD wall-clock limit (the in-process `timeout` is not honoured inside a long exact-simplex
+    pivot: a single query on an LP with 17-digit coefficients was seen running past its 600 s limit).  returns ("sat" | "unsat" | "unknown", model value text or None)"""
+    import os
+    import shutil
+    import subprocess
+    import tempfile
+    import z3
+    s = z3.Solver()
+    s.add(solver.assertions())
+    s.add(goal)
+    text = "(set-logic QF_LRA)\n" + "\n".join(l for l in s.to_smt2().splitlines() if not l.startswith("(set-info") and not l.startswith("(set-logic"))
+    exe = shutil.which("z3-new") or shutil.which("z3")
+    fd, path = tempfile.mkstemp(prefix="vp_q_", suffix=".smt2")
+    try:
+        with os.fdopen(fd, "w") as f:
+            f.write(text)
+        try:
+            p = subprocess.run([exe, "-smt2", path], stdout=subprocess.PIPE, stderr=subprocess.STDOUT, text=True, timeout=timeout_s)
+        except subprocess.TimeoutExpired:
+            return "unknown"
+        out = p.stdout.strip().splitlines()
+        if any("(error" in l for l in out):
+            return "unknown"
+        return out[0].strip() if out and out[0].strip() in ("sat", "unsat", "unknown") else "unknown"
+    finally:
+        try:
+            os.unlink(path)
+        except OSError:
+            pass
